@@ -68,7 +68,7 @@ CTOR_CHECKS = {
 }
 
 # hand models that exist in coq/Model/SchemaM.v (others: H_none = oracle only)
-COQ_HAND = {"hip": "HHip", "ipseckey": "HIpseckey", "amtrelay": "HAmtrelay", "apl": "HApl", "svcb": "HSvcb", "loc": "HLoc"}
+COQ_HAND = {"hip": "HHip", "ipseckey": "HIpseckey", "amtrelay": "HAmtrelay", "apl": "HApl", "svcb": "HSvcb", "loc": "HLoc", "opt": "HOpt"}
 
 UMAX = {1: 255, 2: 65535, 4: 4294967295, 6: 281474976710655}
 FMT = {"B": 1, "H": 2, "I": 4}
